@@ -68,6 +68,19 @@ struct RecSink
     }
 };
 
+// a member sink that takes the formatted record by value (and consumes it): the members behind it must still
+// receive the whole record
+template <int K>
+struct RecSinkV
+{
+    void sink(sl sev, std::string formatted)
+    {
+        RecSink<K>().sink(sev, formatted);
+        std::string gone = std::move(formatted);
+        (void)gone;
+    }
+};
+
 template <typename R>
 using T0 = nl::filter::severity_filter<R, 0>;
 template <typename R>
@@ -116,7 +129,7 @@ template <typename R>
 using F9 = nl::filter::and_filter<T0<R>, Mutet<R>>;
 
 using Sink1 = RecSink<0>;
-using Sink3 = nl::sink::sequence<RecSink<0>, RecSink<1>, RecSink<2>>;
+using Sink3 = nl::sink::sequence<RecSinkV<0>, RecSink<1>, RecSinkV<2>>;
 
 struct ItemV
 {
